@@ -14,6 +14,7 @@
 import AITB.Model.Sampling
 import AITB.Props.C08Dense
 import AITB.Props.C08Project
+import AITB.Props.C08Vose
 import Mathlib.Algebra.Order.Field.Rat
 import Mathlib.Tactic.Linarith
 import Mathlib.Tactic.NormNum
